@@ -284,6 +284,19 @@ func c05CheckRule(c *core.Ctx, text string, walks int, useMatch bool) {
 		for _, u := range c03Witnesses(c, pattern, r.IsOptionEnabled(rules.OptionMatchCase)) {
 			candidates = append(candidates, u)
 		}
+		// Also walk the expression the rule REALLY compiled (not the mask it was
+		// written as): whatever that accepts must contain the shortcut.
+		if w.Compiled != "" {
+			if parsed, perr := syntax.Parse(w.Compiled, syntax.Perl); perr == nil {
+				for i := 0; i < walks/2+4; i++ {
+					var sb strings.Builder
+					c05Walk(c.Rng, parsed, &sb, 0)
+					if s := sb.String(); len(s) < 3500 {
+						candidates = append(candidates, s, s+"/z", s+"?q=1")
+					}
+				}
+			}
+		}
 	}
 
 	accepted := 0
